@@ -6,7 +6,16 @@ whitespace in every gap and line / single-line block comments between items, at 
 whitespace-only gaps before its head, its `;` and its body, except with probability `p_kw` per node,
 where these three gaps may hold comments too. `with` / `assert` stand bare only where the grammar
 reads them as one expression (top level, binding value, inside parentheses, body of another `with` /
-`assert`, rarely as the head of one); elsewhere they are parenthesised. Never starts with whitespace.
+`assert`, rarely as the head of one); elsewhere they are parenthesised. Wherever a leaf may stand
+(and as the function of an application) there may be a select `BASE.a.b` (no `or` default) instead:
+BASE an identifier, a string, a parenthesis, a list or a (`rec`) set — never a number or a path, which
+lex differently in front of a `.` (`1.a` is `1.` applied to `a`, `./p.nix.a` one path), never another
+select (`a.b .c` is ONE select with whitespace inside its attrpath) —, one to three segments
+(identifiers, now and then a "string") with nothing between segments and dots, a whitespace gap in
+front of the first `.` (mostly empty, sometimes a line break and indentation; with probability
+`p_sel_cmt` per select it holds comments too) and, one time in ten, whitespace between that `.` and
+the attrpath. A select binds tighter than application, so it is never parenthesised.
+Never starts with whitespace.
 Small by construction (py-tree-sitter 0.26 crashes beyond ~250 lines)."""
 from __future__ import annotations
 
@@ -19,6 +28,9 @@ LEAVES = ["a", "foo", "true", "false", "null", "0", "1", "42", "3.14", ".5", '"s
           '"x${y}z"', "./p.nix", "../q/r.nix", "<nixpkgs>", "~/h", "x'", "b-c", "_u"]
 NAMES = ["a", "b", "foo", '"q r"', "x'", "c-d", '"é"']
 FUNCS = ["f", "foo", "x'", "b-c", "_u", "import"]
+SEL_BASES = ["a", "foo", "pkgs", "lib", "x'", "b-c", "_u", "self", '"s"', '"x${y}z"']
+SEL_SEGS = ["a", "b", "foo", "lib", "x'", "c-d", "_u", "a", "b", "foo", "lib", '"q r"', '"é"']   # no keyword, no `or`
+SEL_GAPS = [""] * 9 + [" ", "\n", "\n  ", "\n    "]
 WS = (" ", "\t", "\n")
 # tree-sitter-nix quirk: in the trivia run that follows a `./…` / `../…` / `~/…` path, two block comments
 # with nothing between them (`*//*`) are a syntax error; such documents are not generated
@@ -26,11 +38,16 @@ PATH_QUIRK = re.compile(r"(?:nix|~/h)(?:\s|#[^\n]*\n|/\*.*?\*/)*?/\*.*?\*//\*")
 
 
 class FragGen:
-    def __init__(self, rng: random.Random, p_cmt: float, p_inner: float, p_kw: float = 0.25, p_kw_cmt: float = 0.4):
+    def __init__(self, rng: random.Random, p_cmt: float, p_inner: float, p_kw: float = 0.25, p_kw_cmt: float = 0.4,
+                 p_sel: float = 0.22, p_sel_cmt: float = 0.15):
         """`p_kw`: probability that a `with` / `assert` node may have comments in its three inner gaps;
-        `p_kw_cmt`: comment density (as for `gap`) in the inner gaps of such a node"""
+        `p_kw_cmt`: comment density (as for `gap`) in the inner gaps of such a node;
+        `p_sel`: probability that a leaf position (or the function of an application) holds a select;
+        `p_sel_cmt`: probability that a select has comments between its base and the `.`.
+        `self.sels` counts the selects written (what the CST of the text must hold as `D` nodes)"""
         self.rng, self.p_cmt, self.p_inner, self.n = rng, p_cmt, p_inner, 0
         self.p_kw, self.p_kw_cmt = p_kw, p_kw_cmt
+        self.p_sel, self.p_sel_cmt, self.sels = p_sel, p_sel_cmt, 0
 
     def comment(self):
         self.n += 1
@@ -70,6 +87,8 @@ class FragGen:
             f = self.app(depth - 1)
         elif depth > 0 and r < 0.45:
             f = self.paren(depth - 1)
+        elif self.rng.random() < self.p_sel:
+            f = self.select(depth - 1)   # `a.b c` is `(a.b) c`
         else:
             f = self.rng.choice(FUNCS)
         a = self.expr(depth - 1, "arg")
@@ -102,10 +121,41 @@ class FragGen:
             g += " "
         return s + g + b
 
+    def select(self, depth: int) -> str:
+        """BASE g1 `.` gd a₁.a₂.….aₙ; BASE a single token, or (depth > 0) a parenthesis / list / set"""
+        self.sels += 1
+        r = self.rng.random()
+        if depth <= 0 or r < 0.65:
+            s = self.rng.choice(SEL_BASES)
+        elif r < 0.85:
+            s = self.paren(depth)
+        elif r < 0.92:
+            s = self.lst(depth)
+        else:
+            s = self.attrset(depth)
+        if self.rng.random() < self.p_sel_cmt:
+            s += self.rng.choice(GAPS)
+            while True:
+                c, line = self.comment()
+                s += c + (("\n" + self.rng.choice(["", " ", "  ", "\n", "\n  "])) if line else self.rng.choice(GAPS))
+                if self.rng.random() >= 0.3:
+                    break
+        else:
+            s += self.rng.choice(SEL_GAPS)
+        s += "."
+        if self.rng.random() < 0.1:
+            s += self.rng.choice([" ", "  ", "\n", "\n  "])
+        return s + ".".join(self.rng.choice(SEL_SEGS) for _ in range(self.rng.choice([1, 1, 1, 2, 2, 3])))
+
+    def leaf(self, depth: int) -> str:
+        if self.rng.random() < self.p_sel:
+            return self.select(depth)
+        return self.rng.choice(LEAVES)
+
     def expr(self, depth: int, ctx: str = "top") -> str:
         r = self.rng.random()
         if depth <= 0 or r < 0.2:
-            return self.rng.choice(LEAVES)
+            return self.leaf(depth)
         if r < 0.3:
             return self.paren(depth)
         if r < 0.4:
@@ -117,19 +167,25 @@ class FragGen:
             bare = ctx in ("top", "value", "paren", "body") or (ctx == "head" and self.rng.random() < 0.25)
             return self.kw(depth) if bare else "(" + self.kw(depth) + ")"
         if r < 0.8:
-            n = self.rng.choice([0, 0, 1, 1, 2, 3])
-            s = "["
-            for _ in range(n):
-                s += self.gap(self.p_cmt)
-                if not s.endswith(WS) and not s.endswith(("[", "/")):
-                    s += " "
-                if s.endswith("/"):
-                    s += " "
-                s += self.expr(depth - 1, "elem")
-                if not s.endswith(("]", "}", ")")) or self.rng.random() < 0.7:
-                    s += self.rng.choice(SEPS)
+            return self.lst(depth)
+        return self.attrset(depth)
+
+    def lst(self, depth: int) -> str:
+        n = self.rng.choice([0, 0, 1, 1, 2, 3])
+        s = "["
+        for _ in range(n):
             s += self.gap(self.p_cmt)
-            return s + "]"
+            if not s.endswith(WS) and not s.endswith(("[", "/")):
+                s += " "
+            if s.endswith("/"):
+                s += " "
+            s += self.expr(depth - 1, "elem")
+            if not s.endswith(("]", "}", ")")) or self.rng.random() < 0.7:
+                s += self.rng.choice(SEPS)
+        s += self.gap(self.p_cmt)
+        return s + "]"
+
+    def attrset(self, depth: int) -> str:
         s = ("rec" + self.rng.choice(GAPS) if self.rng.random() < 0.2 else "") + "{"
         for _ in range(self.rng.choice([0, 1, 1, 2, 3])):
             s += self.gap(self.p_cmt)
@@ -163,12 +219,20 @@ class FragGen:
 def programs(rng: random.Random, n: int):
     """yields n fragment programs (text); mixture of comment densities; about a third with comments
     between the tokens of bindings; a quarter of the `with` / `assert` nodes (none / a quarter / half,
-    by document) may have comments in their inner gaps"""
+    by document) may have comments in their inner gaps; selects may have comments in front of their `.`
+    with probability 0 / 0.15 / 0.3 (by document)"""
+    for t, _ in programs_counted(rng, n):
+        yield t
+
+
+def programs_counted(rng: random.Random, n: int):
+    """as `programs`, yielding (text, number of selects written)"""
     made = 0
     while made < n:
-        g = FragGen(rng, rng.choice([0.0, 0.2, 0.5]), rng.choice([0.0, 0.0, 0.3]), rng.choice([0.0, 0.25, 0.5]))
+        g = FragGen(rng, rng.choice([0.0, 0.2, 0.5]), rng.choice([0.0, 0.0, 0.3]), rng.choice([0.0, 0.25, 0.5]),
+                    p_sel_cmt=rng.choice([0.0, 0.15, 0.3]))
         t = g.file(rng.randint(0, 4))
         if t.count("\n") > 150 or t[:1] in WS or PATH_QUIRK.search(t):
             continue
         made += 1
-        yield t
+        yield t, g.sels
